@@ -29,10 +29,10 @@ def run(ctx):
     if reg.problems:
         for p in reg.problems:
             ctx.ob('C12.a', 'registry', 'registration is well formed', False, detail=p)
-    rule_a(ctx, ix, reg)
-    rule_b(ctx, ix, reg)
-    rule_c(ctx, ix, reg)
-    rule_d(ctx, ix, reg)
+    ctx.guard(rule_a, ctx, ix, reg)
+    ctx.guard(rule_b, ctx, ix, reg)
+    ctx.guard(rule_c, ctx, ix, reg)
+    ctx.guard(rule_d, ctx, ix, reg)
 
 
 def rule_a(ctx, ix, reg):
